@@ -208,6 +208,10 @@ pub enum Op {
     Disconnect { c: usize },
     /// full consistency audit: every partition read completely and compared, counters compared
     Audit,
+    /// every kind of request on a fresh connection that never authenticated
+    UnauthProbe { which: u32 },
+    /// malformed frames on a fresh connection, derived from `seed`
+    Garbage { seed: u64 },
 }
 
 impl Op {
@@ -270,6 +274,8 @@ impl Op {
             Op::Connect { .. } => "connect",
             Op::Disconnect { .. } => "disconnect",
             Op::Audit => "audit",
+            Op::UnauthProbe { .. } => "unauth_probe",
+            Op::Garbage { .. } => "garbage",
         }
     }
 }
